@@ -363,6 +363,7 @@ def _da_exponent_block():
     from the fit at the returned exponent."""
     st = _prep()
     DA, E = st['DA'], st['E']
+    _ST.setdefault('real_log_p_exp', DA.log_p_exp)
     base = f"{P}/dr_da_plots.da_plot_raw"
     cfg = 'n=4|exponent=optimised'
     eng = sx.Engine(max_paths=400, div0='assume')
@@ -375,12 +376,19 @@ def _da_exponent_block():
         M, rho, T = eng.real('M', positive=True), eng.real('rho', positive=True), eng.real('T', positive=True)
         ps = _pressures(eng, 4)
         ls = [eng.real(f'l{i}', positive=True) for i in range(4)]
+        # the abscissa transform log_p_exp(p, e) = ln(1/p)^e is an opaque function here (its linearising property is the CAS
+        # obligation da.transform_is_linear...); what is decided is where its values go
+        import z3 as _z3
+        LPE = _z3.Function('pgv_log_p_exp', _z3.RealSort(), _z3.RealSort(), _z3.RealSort())
+        real_lpe = DA.log_p_exp
+        DA.log_p_exp = lambda p, e: _arr([sx.SymReal(LPE(sx.SymReal.lift(q), sx.SymReal.lift(e))) for q in p])
         try:
             res = DA.da_plot_raw(_arr(ps), _arr(ls), T, M, rho, None, None)
             out = 'return'
         except E.CalculationError:
             out = 'CalculationError'
         except sx.SymZeroDivision:
+            DA.log_p_exp = real_lpe
             return  # fitted slope exactly zero (constant loading): RT / 0; outside the method's domain, no claim
         x = {'replay': replay, 'observed': out}
         eng.prove(f"{base}/da.exponent.one_bounded_scalar_minimisation/{cfg}", len(opt.calls) == 1 and opt.calls[0]['kind'] == 'minimize_scalar'
@@ -415,7 +423,11 @@ def _da_exponent_block():
             r = mine[0]['result'][2]
             eng.prove(f"{base}/da.exponent.objective_is_one_minus_r_squared_scale_free/{cfg}", sx.eq(val, 1 - r * r), extra=x)
             eng.prove(f"{base}/da.exponent.objective_nonnegative_and_zero_for_a_perfect_line/{cfg}", sx.And(val >= 0, sx.Implies(sx.eq(r * r, 1), sx.eq(val, 0))), extra=x)
-    return collect(eng, run, base, cfg)
+    try:
+        return collect(eng, run, base, cfg)
+    finally:
+        import importlib
+        DA.log_p_exp = _ST.get('real_log_p_exp', DA.log_p_exp)
 
 
 def cas_block(_b):
